@@ -36,7 +36,10 @@ import (
 type AV any
 
 type oodError struct{ why string }
-type panicError struct{ why string }
+type panicError struct {
+	why string
+	val AV // the panic value as an interface (explicit panics under Interp.Recover)
+}
 
 func (e oodError) Error() string   { return "outside the evaluated fragment: " + e.why }
 func (e panicError) Error() string { return "run-time panic: " + e.why }
@@ -45,7 +48,7 @@ var absDebug = os.Getenv("VCHECK_DEBUG_ABSINT") != ""
 
 func ood(format string, args ...any) { panic(oodError{fmt.Sprintf(format, args...)}) }
 func rtPanic(format string, args ...any) {
-	panic(panicError{fmt.Sprintf(format, args...)})
+	panic(panicError{why: fmt.Sprintf(format, args...)})
 }
 
 // Sym is an opaque token (a logger, an appender, an error value).
@@ -127,7 +130,13 @@ type FramesV struct {
 }
 
 type Interp struct {
-	traced       bool
+	traced bool
+	// Inline: import-path prefixes of library packages whose functions are evaluated like module code
+	Inline   []string
+	MaxDepth int
+	// Recover: panics unwind through deferred calls and recover() works (default: a modelled panic ends the evaluation)
+	Recover      bool
+	panicFrames  []*aframe
 	trace        []string
 	c            *Ctx
 	Steps        int
@@ -379,7 +388,12 @@ func (ip *Interp) initGlobals() {
 		return
 	}
 	ip.initDone = true
-	ini := ip.c.LogS.Func("init")
+	ip.initPackage(ip.c.LogS)
+}
+
+// initPackage evaluates one package initialiser leniently (see initGlobals).
+func (ip *Interp) initPackage(pkg *ssa.Package) {
+	ini := pkg.Func("init")
 	if ini == nil || len(ini.Blocks) == 0 {
 		return
 	}
@@ -391,7 +405,7 @@ func (ip *Interp) initGlobals() {
 	}
 	if ip.InitFull {
 		// package variables start as the zero value of their type
-		for _, m := range ip.c.LogS.Members {
+		for _, m := range pkg.Members {
 			if g, ok := m.(*ssa.Global); ok && !strings.HasPrefix(g.Name(), "init$") {
 				if o, ok := ip.Globals[g]; !ok || o.V == nil {
 					func() {
@@ -408,7 +422,7 @@ func (ip *Interp) initGlobals() {
 	fr := &aframe{fn: ini, env: map[ssa.Value]AV{}}
 	b := ini.Blocks[0]
 	var prev *ssa.BasicBlock
-	for steps := 0; steps < 20000 && b != nil; steps++ {
+	for steps := 0; steps < 200000 && b != nil; steps++ {
 		var next *ssa.BasicBlock
 		for _, in := range b.Instrs {
 			done := false
@@ -485,7 +499,7 @@ func (ip *Interp) initGlobals() {
 							if cal.Origin() != nil {
 								o = cal.Origin()
 							}
-							if o.Pkg == ip.c.LogS && cal.Signature.Results().Len() == 0 {
+							if o.Pkg == pkg && cal.Signature.Results().Len() == 0 {
 								return
 							}
 						}
@@ -674,6 +688,10 @@ type aframe struct {
 	free   []AV
 	args   []AV
 	defers []func()
+	// panicking: the panic unwinding through this frame while its deferred calls run (Interp.Recover);
+	// deferDepth: the call depth at which those deferred calls execute (recover() is honoured only there)
+	panicking  *panicError
+	deferDepth int
 }
 
 func (ip *Interp) operand(fr *aframe, v ssa.Value) AV {
@@ -752,15 +770,70 @@ func (ip *Interp) call(fn *ssa.Function, args []AV, free []AV) AV {
 		ip.depth--
 		ip.Stack = ip.Stack[:len(ip.Stack)-1]
 	}()
-	if ip.depth > 60 {
+	if md := ip.MaxDepth; (md == 0 && ip.depth > 60) || (md > 0 && ip.depth > md) {
 		ood("call depth")
 	}
 	fr := &aframe{fn: fn, env: map[ssa.Value]AV{}, free: free, args: args}
+	if !ip.Recover {
+		return ip.loop(fr, fn.Blocks[0], &curIn)
+	}
+	var res AV
+	protect := func(f func()) (pe *panicError) {
+		defer func() {
+			if x := recover(); x != nil {
+				if p, ok := x.(panicError); ok {
+					pe = &p
+					return
+				}
+				panic(x)
+			}
+		}()
+		f()
+		return nil
+	}
+	pe := protect(func() { res = ip.loop(fr, fn.Blocks[0], &curIn) })
+	if pe == nil {
+		return res
+	}
+	// a panic unwinds through this frame: its deferred calls run, one of them may recover
+	fr.panicking, fr.deferDepth = pe, ip.depth+1
+	ip.panicFrames = append(ip.panicFrames, fr)
+	for len(fr.defers) > 0 {
+		d := fr.defers[len(fr.defers)-1]
+		fr.defers = fr.defers[:len(fr.defers)-1]
+		if p2 := protect(d); p2 != nil {
+			fr.panicking = p2 // a deferred call panicked: the new panic replaces the old one
+		}
+	}
+	ip.panicFrames = ip.panicFrames[:len(ip.panicFrames)-1]
+	if fr.panicking != nil {
+		panic(*fr.panicking)
+	}
+	ip.traced = false
+	if fn.Recover != nil {
+		return ip.loop(fr, fn.Recover, &curIn)
+	}
+	switch n := fn.Signature.Results().Len(); n {
+	case 0:
+		return TupleV{}
+	case 1:
+		return ip.zeroOf(fn.Signature.Results().At(0).Type())
+	default:
+		tv := make(TupleV, n)
+		for i := range tv {
+			tv[i] = ip.zeroOf(fn.Signature.Results().At(i).Type())
+		}
+		return tv
+	}
+}
+
+// loop executes the blocks of fr.fn from b until a return.
+func (ip *Interp) loop(fr *aframe, b *ssa.BasicBlock, cur *ssa.Instruction) AV {
+	fn := fr.fn
 	var prev *ssa.BasicBlock
-	b := fn.Blocks[0]
 	for {
 		for _, in := range b.Instrs {
-			curIn = in
+			*cur = in
 			ip.Steps++
 			if ip.Steps > ip.MaxSteps {
 				ood("step budget exhausted in %s", fname(fn))
@@ -803,6 +876,9 @@ func (ip *Interp) call(fn *ssa.Function, args []AV, free []AV) AV {
 				}
 				return tv
 			case *ssa.Panic:
+				if ip.Recover {
+					panic(panicError{why: fmt.Sprintf("explicit panic in %s: %s", fname(fn), avString(ip.operand(fr, x.X))), val: ip.operand(fr, x.X)})
+				}
 				rtPanic("explicit panic in %s", fname(fn))
 			case *ssa.RunDefers:
 				ip.runDefers(fr)
@@ -872,6 +948,24 @@ func mapKey(v AV) string {
 		return mapKey(x.V)
 	case *RTypeV:
 		return "rtype:" + types.TypeString(x.T, nil)
+	case *Ptr:
+		return fmt.Sprintf("ptr:%d%v", x.O.id, x.Path)
+	case NilV:
+		return "nil"
+	case *StructV:
+		k := "{"
+		for _, f := range x.F {
+			k += mapKey(f) + ";"
+		}
+		return k + "}"
+	case *ArrV:
+		k := "["
+		for _, o := range x.C {
+			k += mapKey(o.V) + ";"
+		}
+		return k + "]"
+	case *FloatV:
+		return fmt.Sprintf("float:%v", x.F)
 	}
 	ood("map key %s", avString(v))
 	return ""
@@ -900,6 +994,9 @@ func (ip *Interp) calleeValue(fr *aframe, cc *ssa.CallCommon) AV {
 
 // apply performs a call whose callee value and arguments are already evaluated.
 func (ip *Interp) apply(cc *ssa.CallCommon, fv AV, args []AV) AV {
+	if cc == nil {
+		cc = &ssa.CallCommon{}
+	}
 	if cc.IsInvoke() {
 		iv, ok := fv.(*IfaceV)
 		if !ok {
@@ -983,7 +1080,25 @@ func (ip *Interp) callFn(fn *ssa.Function, args []AV, free []AV) AV {
 			return r
 		}
 	}
-	if len(fn.Blocks) == 0 || fn.Pkg == nil || !strings.HasPrefix(fn.Pkg.Pkg.Path(), logPath) {
+	inFragment := func() bool {
+		pk := fn.Pkg
+		if pk == nil && fn.Origin() != nil {
+			pk = fn.Origin().Pkg
+		}
+		if pk == nil {
+			return false
+		}
+		if strings.HasPrefix(pk.Pkg.Path(), logPath) {
+			return true
+		}
+		for _, p := range ip.Inline {
+			if strings.HasPrefix(pk.Pkg.Path(), p) {
+				return true
+			}
+		}
+		return false
+	}
+	if len(fn.Blocks) == 0 || !inFragment() {
 		// synthetic wrappers (bound methods, promoted methods) have Pkg == nil but a body
 		if len(fn.Blocks) > 0 && fn.Synthetic != "" {
 			return ip.call(fn, args, free)
@@ -1516,6 +1631,21 @@ func (ip *Interp) convert(a AV, from, to types.Type) AV {
 
 func (ip *Interp) builtin(name string, args []AV, cc *ssa.CallCommon) AV {
 	switch name {
+	case "recover":
+		if !ip.Recover {
+			ood("builtin recover")
+		}
+		if n := len(ip.panicFrames); n > 0 {
+			if pf := ip.panicFrames[n-1]; pf.panicking != nil && pf.deferDepth == ip.depth {
+				pe := pf.panicking
+				pf.panicking = nil
+				if pe.val != nil {
+					return pe.val
+				}
+				return ip.runtimeErr(pe.why)
+			}
+		}
+		return NilV{}
 	case "len":
 		switch x := args[0].(type) {
 		case *ChanV:
@@ -1718,6 +1848,8 @@ func (ip *Interp) model(fn *ssa.Function, args []AV) (res AV, ok bool) {
 		}
 	}
 	switch name {
+	case "runtime/debug.Stack":
+		return ip.bytesAV([]byte("goroutine 1 [running]:\n")), true
 	case "runtime.Caller":
 		// frame 0 = the function calling runtime.Caller
 		nm, ok := ip.frameName(int(avInt(args[0])))
@@ -2072,6 +2204,22 @@ func (ip *Interp) model(fn *ssa.Function, args []AV) (res AV, ok bool) {
 		return kInt(0), true
 	case "errors.New", "fmt.Errorf", "github.com/go-spring/stdlib/errutil.Explain", "github.com/go-spring/stdlib/errutil.Stack":
 		return &IfaceV{T: types.Universe.Lookup("error").Type(), V: &Sym{Name: "error"}}, true
+	case "errors.Join":
+		// nil iff every argument is nil
+		if sv, ok := args[0].(*SliceV); ok {
+			for _, e := range sv.elems() {
+				if !isNilAV(e) {
+					return &IfaceV{T: types.Universe.Lookup("error").Type(), V: &Sym{Name: "error"}}, true
+				}
+			}
+		}
+		return NilV{}, true
+	case "strconv.Unquote":
+		u, err := strconv.Unquote(s(0))
+		if err != nil {
+			return TupleV{kStr(""), ip.errVal(err.Error())}, true
+		}
+		return TupleV{kStr(u), NilV{}}, true
 	}
 	// bytes.Buffer / strings.Builder methods on a modelled buffer
 	if recv := fn.Signature.Recv(); recv != nil && len(args) > 0 {
